@@ -463,6 +463,77 @@ pub fn check_edge(c: &Edge, rec: &mut Rec) -> Result<(), String> {
     Ok(())
 }
 
+#[derive(Clone, Debug, Serialize, Deserialize)]
+pub struct FastLoadTime {
+    pub machine: Machine,
+    pub len: u8,
+    pub seed: u64,
+    pub start_t: u32,
+}
+
+/// Fast loading is instantaneous: between the CALL of LD-BYTES and its return only the ROM
+/// instructions that really execute take time (the entry code up to the trap at 0x056B and the
+/// SA/LD-RET exit code); the block transfer itself adds no T-states to the frame clock.
+pub fn check_fastload_time(c: &FastLoadTime, rec: &mut Rec) -> Result<(), String> {
+    use crate::formats::tap;
+    use crate::host::{DynAsset, MemAsset};
+    use crate::props::c10::{self, RET_ADDR};
+    use crate::tape::Request;
+    let machine = c.machine;
+    let frame_len = machine.frame_len() as u64;
+    let len = c.len as usize % 60 + 1;
+    let mut x = c.seed | 1;
+    let payload: Vec<u8> = (0..len).map(|_| { x ^= x << 13; x ^= x >> 7; x ^= x << 17; x as u8 }).collect();
+    let image = tap::write(&[tap::block(0xFF, &payload, true)]);
+    let mut rig = c10::mk_rig(machine, c.seed, true);
+    rig.e.load_tape(rustzx_core::host::Tape::Tap(DynAsset::new(MemAsset::new(image)))).map_err(|x| format!("load_tape: {:?}", x))?;
+    let rq = Request { a: 0xFF, load: true, ix: 0x9000, de: len as u16 };
+    c10::setup_call(&mut rig, &rq);
+    // anywhere in the frame, away from the INT pulse and the frame end
+    let t0 = 200 + c.start_t as u64 % (frame_len - 4000);
+    rig.e.verif_set_frame_clocks(t0 as usize);
+    // reference: the same call on the reference machine; at the trap address the loader's own exit is
+    // taken (pop the address LD-BYTES pushed for SA/LD-RET) without any time passing
+    let regs = mach::get_regs(&mut rig.e);
+    let mut m = RefMachine::new(rig.m.clone());
+    set_ref(&mut m.cpu, &CpuState { regs, memptr: 0, q_is_f: false, halted: false, no_int: false });
+    m.bus.t = t0;
+    let mut trapped = false;
+    let mut guard = 0;
+    while m.cpu.pc != RET_ADDR {
+        if m.cpu.pc == 0x056B && !trapped {
+            trapped = true;
+            let sp = m.cpu.sp;
+            m.cpu.pc = u16::from_le_bytes([m.bus.mem.read(sp), m.bus.mem.read(sp.wrapping_add(1))]);
+            m.cpu.sp = sp.wrapping_add(2);
+            continue;
+        }
+        m.step_group();
+        guard += 1;
+        if guard > 400 {
+            return Err("harness: the reference did not reach the return address".into());
+        }
+    }
+    if !trapped {
+        return Err("harness: the reference never passed the trap address".into());
+    }
+    let frames0 = rig.e.verif_total_frames();
+    if mach::run_to(&mut rig.e, &[RET_ADDR], 3)?.is_none() {
+        return Err("LD-BYTES did not return within 3 frames with fast loading enabled".into());
+    }
+    rec.eval();
+    let got = (rig.e.verif_total_frames() - frames0) * frame_len + rig.e.verif_frame_clocks() as u64;
+    if got != m.bus.t {
+        return Err(format!(
+            "fast load of a {}-byte block called at frame T {}: the call returned at T {}; the ROM instructions that execute (entry up to the trap at 0x056B, exit through SA/LD-RET) end at T {} — the transfer itself takes no emulated time",
+            len + 2, t0, got, m.bus.t
+        ));
+    }
+    rec.class("fast-load-takes-no-extra-time");
+    rec.nontrivial(fnv(format!("{:?}", c).as_bytes()));
+    Ok(())
+}
+
 pub fn run(run: &mut Run) {
     if !crate::props::calibration::ensure(run) {
         return;
@@ -485,9 +556,18 @@ pub fn run(run: &mut Run) {
     run.explore("programs", t.pick(2_400, 60_000), || case_strategy(12), check);
     run.explore("long-runs", t.pick(64, 2_000), || case_strategy(200), check);
     run.explore("programs-with-a-tape-playing", t.pick(600, 20_000), || tape_case_strategy(8), check);
+    run.explore(
+        "fast-load-takes-no-extra-time",
+        t.pick(800, 30_000),
+        || (prop_oneof![Just(Machine::K48), Just(Machine::K128)], any::<u8>(), any::<u64>(), any::<u32>()).prop_map(|(machine, len, seed, start_t)| FastLoadTime { machine, len, seed, start_t }),
+        check_fastload_time,
+    );
 }
 
 pub fn replay(run: &mut Run, phase: &str, case: &serde_json::Value) -> Result<(), String> {
+    if phase == "fast-load-takes-no-extra-time" {
+        return run.replay_one::<FastLoadTime, _>(phase, case, check_fastload_time);
+    }
     if phase == "int-window-edges" {
         return run.replay_one::<Edge, _>(phase, case, check_edge);
     }
@@ -495,7 +575,7 @@ pub fn replay(run: &mut Run, phase: &str, case: &serde_json::Value) -> Result<()
 }
 
 pub const LEVEL: &str = "exploration";
-pub const RULE: &str = "case = machine x program (loop of 1..40 generated blocks: ALU, loads, stack, HALT, EI/DI, DJNZ delays, LDIR, contended screen traffic, ULA port I/O, paging-port writes incl. the lock bit and writes after the lock) placed in uncontended, contended or paged RAM x interrupt handler (short filler+[EI]+RET that may re-enter within one pulse, or a self-counting handler of 0..1200 NOPs) x IM 0/1/2 x start T-state x 1..6 emulate_frames calls of 1..200 frames each; after EVERY call the emulator's (frame counter, frame clock, registers, halted) must equal the reference machine, whose clock is a single monotone T-state counter (frame = T div length, INT asserted iff T mod length < 32); all RAM compared at the end; in a fifth of the cases the host first stops the machine with a breakpoint somewhere inside a frame and pokes a byte into contended RAM (which must take no emulated time); in a third of the cases a host I/O extender claims the ports xxFE the programs use. programs-with-a-tape-playing: the same with a tape playing in real time (programs without port reads), in half of the cases a tape whose first block is empty, so that emulate_frames returns a tape error once and the host carries on with the remaining frames — time must be conserved all the same. evaluations = emulate_frames calls compared. non-trivial = run of >= 2 frames in which >= 1 instruction straddled a frame end with non-zero overrun; distinct = hash of the case";
+pub const RULE: &str = "case = machine x program (loop of 1..40 generated blocks: ALU, loads, stack, HALT, EI/DI, DJNZ delays, LDIR, contended screen traffic, ULA port I/O, paging-port writes incl. the lock bit and writes after the lock) placed in uncontended, contended or paged RAM x interrupt handler (short filler+[EI]+RET that may re-enter within one pulse, or a self-counting handler of 0..1200 NOPs) x IM 0/1/2 x start T-state x 1..6 emulate_frames calls of 1..200 frames each; after EVERY call the emulator's (frame counter, frame clock, registers, halted) must equal the reference machine, whose clock is a single monotone T-state counter (frame = T div length, INT asserted iff T mod length < 32); all RAM compared at the end; in a fifth of the cases the host first stops the machine with a breakpoint somewhere inside a frame and pokes a byte into contended RAM (which must take no emulated time); in a third of the cases a host I/O extender claims the ports xxFE the programs use. programs-with-a-tape-playing: the same with a tape playing in real time (programs without port reads), in half of the cases a tape whose first block is empty, so that emulate_frames returns a tape error once and the host carries on with the remaining frames — time must be conserved all the same. fast-load-takes-no-extra-time: a ROM LD-BYTES call served by the fast loader must return at the T-state at which the reference machine, executing the ROM's entry code up to the trap address and its SA/LD-RET exit code, arrives. evaluations = emulate_frames calls compared. non-trivial = run of >= 2 frames in which >= 1 instruction straddled a frame end with non-zero overrun; distinct = hash of the case";
 pub const ASSUMPTIONS: &[&str] = &[
     "reference Z80 + contention model trusted (calibration, C03, C04)",
     "programs contain no prefix chains and no reads from unclaimed ports, so one emulate() call = optional interrupt entry + one instruction",
